@@ -1,5 +1,6 @@
 import CedarVerif.Cedar.Pattern
 import CedarVerif.Lemmas.NoPanicLike
+import CedarVerif.Lemmas.NoPanicUtf8
 /-
 C20 — No panics on arbitrary input (mirrored components).
 
@@ -45,5 +46,67 @@ example : wmIdx [.char 'a'] ['a', 'b'] = .result false := by decide +kernel
 -- backtracking moves `i` to `tmp_idx + 1 = text_len` (the `i < text_len` guard is what protects `text[i]`)
 example : wmIdx [.star, .char 'a', .char 'b'] ['a', 'a'] = .result false := by decide +kernel
 example : wmIdx [.star, .char 'b', .star, .char 'c'] ['a', 'b', 'b', 'c'] = .result true := by decide +kernel
+
+/-! ### (b) `contains_at_least_two` (cedar-policy-core/src/extensions/ipaddr.rs)
+
+Byte-level model of `&str` (`Cedar/NoPanic/Utf8.lean`): `find` returns a byte offset, `sliceFrom s n` is `s.get(n..)`
+(`none` iff `n` is out of bounds or inside a char). The Rust comment argues the two preconditions informally and
+checks them with kani for strings of at most 6 bytes; here: all strings, all chars. -/
+open Cedar.NoPanic in
+/-- `s.get(i + c.len_utf8()..)` is always `Some`: the `unwrap` cannot panic -/
+theorem no_panic_contains_at_least_two (s : List Char) (c : Char) :
+    ∀ site, containsAtLeastTwo s c ≠ .panic site := by
+  intro site
+  unfold containsAtLeastTwo
+  cases hf : find c s with
+  | none => exact fun h => BoolOutcome.noConfusion h
+  | some i =>
+    obtain ⟨p, r, _, _, hsl⟩ := slice_after_find s c i hf
+    simp only [hsl]
+    exact fun h => BoolOutcome.noConfusion h
+
+open Cedar.NoPanic in
+/-- and the function computes what its name says: at least two occurrences -/
+theorem contains_at_least_two_spec (s : List Char) (c : Char) :
+    containsAtLeastTwo s c = .result (decide (2 ≤ s.count c)) := by
+  unfold containsAtLeastTwo
+  cases hf : find c s with
+  | none =>
+    have h1 : (find c s).isSome = s.contains c := find_isSome_iff c s
+    rw [hf] at h1
+    have : c ∉ s := by
+      intro hm
+      have : s.contains c = true := List.contains_iff_mem.mpr hm
+      rw [this] at h1; cases h1
+    simp [List.count_eq_zero_of_not_mem this]
+  | some i =>
+    obtain ⟨p, r, hs, hp, hsl⟩ := slice_after_find s c i hf
+    simp only [hsl]
+    congr 1
+    rw [find_isSome_iff, hs, List.count_append, List.count_cons_self, List.count_eq_zero_of_not_mem hp]
+    by_cases hm : c ∈ r
+    · have h1 : r.contains c = true := List.contains_iff_mem.mpr hm
+      have h2 : 0 < r.count c := List.count_pos_iff.mpr hm
+      rw [h1]; symm; simp only [decide_eq_true_eq]; omega
+    · have h1 : r.contains c = false := by
+        cases hc : r.contains c with
+        | false => rfl
+        | true => exact absurd (List.contains_iff_mem.mp hc) hm
+      rw [h1, List.count_eq_zero_of_not_mem hm]; simp
+
+-- non-vacuity: the occurrence is the last char (slice = empty string, offset = s.len()), multi-byte chars, no occurrence
+open Cedar.NoPanic in
+example : containsAtLeastTwo ['a', ':'] ':' = .result false := by decide +kernel
+open Cedar.NoPanic in
+example : containsAtLeastTwo ['é', '😀', 'é'] 'é' = .result true := by decide +kernel
+open Cedar.NoPanic in
+example : containsAtLeastTwo ['😀'] '😀' = .result false := by decide +kernel
+open Cedar.NoPanic in
+example : containsAtLeastTwo [] ':' = .result false := by decide +kernel
+-- the slice really can fail on other offsets: offset 1 is inside `é`
+open Cedar.NoPanic in
+example : sliceFrom ['é', 'a'] 1 = none := by decide +kernel
+open Cedar.NoPanic in
+example : sliceFrom ['é', 'a'] 4 = none := by decide +kernel
 
 end Cedar.C20
